@@ -14,11 +14,10 @@ observation (one per state): {"pool":[{"p","n","st","held","q","rh","fl","sn","o
                               "launch":[[p,name,sn]..], "polls":[[p,name]..], "stalled":bool, "stop":str|null, "rl":p|null}
 -/
 import CylcModel.Util.Drv
-import CylcModel.Sched3Crash
-import CylcModel.Generated.CrashFlags
+import CylcModel.Sched3Fut
 open Lean CylcModel.Drv
 
-namespace CylcModel.Sched3Crash
+namespace CylcModel.Sched3Fut
 
 def req {α} (o : Option α) (what : String) : Except String α :=
   match o with | some v => .ok v | none => .error s!"missing/invalid {what}"
@@ -61,11 +60,7 @@ def objPairs (j : Json) : List (String × Json) :=
 def parseInst (j : Json) : Except String InstDef := do
   let pre ← ((jArrField? j "pre").getD []).mapM parsePre
   let sui ← ((jArrField? j "sui").getD []).mapM parsePre
-  -- the children in the real iteration order of `spawn_on_output` when the harness supplies it (the order decides
-  -- which spawnings precede the commit that follows the recording of an absolute output)
-  let chJ := match jOptField j "children_ord" with
-    | some c => c
-    | none => (jField? j "children").getD Json.null
+  let chJ := (jField? j "children").getD Json.null
   let children ← (objPairs chJ).mapM fun (k, v) => do
     let cs ← ((jArr? v).getD []).mapM fun c => do
       match jArr? c with
@@ -125,34 +120,16 @@ def parseGraph (j : Json) : Except String Graph := do
   let seqs := ((jArrField? j "seqs").getD []).map fun q => ((jArr? q).getD []).filterMap jInt?
   let stopPoint := (jOptField j "stop_point").bind jInt?
   let cfgStop := (jOptField j "cfg_stop").bind jInt?
-  return { icp, fcp, start, runahead, tasks, seqs, stopPoint, cfgStop,
-           poolAtRemove := CrashFlags.poolAtRemove, poolAtAbs := CrashFlags.poolAtAbs,
-           poolAtSuicide := CrashFlags.poolAtSuicide, poolAtStart := CrashFlags.poolAtStart }
+  return { icp, fcp, start, runahead, tasks, seqs, stopPoint, cfgStop }
 
 def parseTaskId (s : String) : Except String (Int × String) :=
   match s.splitOn "/" with
   | [p, n] => do return (← req p.toInt? "task id point", n)
   | _ => .error s!"bad task id {s}"
 
-/-- the job-submission failure event is the text "submission failed" in cylc-flow, which the model spells
-"submit-failed" (the name of the output it completes) -/
-def mapText (t : String) : String :=
-  if t == "submission failed" then "submit-failed"
-  else if t == "submit-failed" then "submit-failed (text)"
-  else t
-
 def parseOp (j : Json) : Except String Op := do
   match jStrField? j "op" with
-  | some "loop" =>
-    -- a main loop in which the scheduler dies at its `crash_at`-th commit boundary (`crash_stmt`: how far into the
-    -- transaction it got - the database is the same, the transaction is rolled back)
-    match jOptField j "crash_at" with
-    | some k => return .loopCrash (← req (jNat? k) "crash_at")
-    | none => return .loop
-  | some "crash" => return .crash
-  | some "pollres" =>
-    let (p, n) ← parseTaskId (← req (jStrField? j "task") "task")
-    return .pollres p n (← req (jNatField? j "sn") "sn") (mapText (← req (jStrField? j "state") "state"))
+  | some "loop" => return .loop
   | some "subres" =>
     let (p, n) ← parseTaskId (← req (jStrField? j "task") "task")
     return .subres p n (← req (jBoolField? j "ok") "ok") (← req (jNatField? j "sn") "sn")
@@ -237,19 +214,6 @@ def obsJson (g : Graph) (s : State) : Json :=
     ("stop_mode", match s.stopMode with | some m => Json.str m | none => Json.null),
     ("book", Json.mkObj [("cache_ok", Json.bool true), ("empty_bucket", Json.bool false),
                          ("key_ok", Json.bool true), ("dup", Json.bool (hasDup s.pool))]),
-    ("ncommit", jOfNat s.ncommit),
-    ("crashed", Json.bool s.crashed),
-    ("abs_done", jOfList (fun (a : Atom) => Json.arr #[jOfInt a.pt, Json.str a.task, Json.str a.out])
-      (sortBy (fun a b => atomLt (a, false) (b, false)) s.absDone)),
-    ("ts", if s.stop.isSome then Json.null else
-      jOfList (fun (r : Row) =>
-        let outs : List String := match g.task? r.name with
-          | some t => (t.outputs.filter fun o => r.outs.contains o.message).map (·.trigger)
-          | none => []
-        Json.arr #[jOfInt r.pt, Json.str r.name, jOfList jOfNat [1], Json.str r.status.str, jOfNat r.submitNum,
-          Json.bool false,
-          jOfList (fun (t : String) => Json.arr #[Json.str t, Json.bool false]) (sortBy (· < ·) outs)])
-        (sortBy (fun (a b : Row) => a.pt < b.pt || (a.pt == b.pt && a.name < b.name)) s.cdb.rows)),
     ("db", match s.db with
       | none => Json.null
       | some rows => jOfList (fun (x : Proxy) => Json.arr #[jOfInt x.pt, Json.str x.name, jOfList jOfNat x.flows,
@@ -266,9 +230,9 @@ def parseCase (i : Json) : Except String Case := do
 
 def modelObs (c : Case) : Json := jOfList (obsJson c.graph) (run c.graph c.ops)
 
-end CylcModel.Sched3Crash
+end CylcModel.Sched3Fut
 
-namespace CylcModel.Sched3Crash
+namespace CylcModel.Sched3Fut
 open Lean CylcModel.Drv
 
 /-- a run in which the real scheduler raised an exception is never a behaviour of the model -/
@@ -284,4 +248,4 @@ def poolOf (ob : Json) : List Json := (jArrField? ob "pool").getD []
 
 def keyOf (t : Json) : Int × String := ((jIntField? t "p").getD 0, (jStrField? t "n").getD "")
 
-end CylcModel.Sched3Crash
+end CylcModel.Sched3Fut
